@@ -12,7 +12,7 @@
    composite tokens use one scratch handle slot (index NB+ND) that is dead before and after
    stdout per history: per step "ok|objs|handles|cmps" joined by " ; "
      objs:    c<useCount> (alive) | x (destroyed)           handles: . (no handle) | 0 (null) | k (object k-1)
-     cmps:    for every pair a<b of live handles of the same static type: e (==) | n (!=) *)
+     cmps:    for every pair a<b of live handles, of the same or of different static types: e (==) | n (!=) *)
 let ios = int_of_string
 let rec int_of_pos (p : positive) : int =
   match p with XH -> 1 | XO q -> 2 * int_of_pos q | XI q -> 2 * int_of_pos q + 1
@@ -56,7 +56,7 @@ let () =
         if not (live h) then "." else match handle_ptr s (nat h) with None -> "0" | Some o -> string_of_int (int_of_nat o + 1))) in
     let b = Buffer.create 16 in
     for a = 0 to n - 1 do for c = a + 1 to n - 1 do
-        if live a && live c && ((a < nb) = (c < nb)) then begin
+        if live a && live c then begin
           let e = handle_eq s (nat a) (nat c) and ne = handle_ne s (nat a) (nat c) in
           Buffer.add_char b (if e && not ne then 'e' else if ne && not e then 'n' else 'X') end
       done done;
